@@ -219,6 +219,7 @@ fn replay(kind: &str, iface: &str, msg_i: usize, plen: usize, sc: Scripts, max_r
                             }
                             push2(json!({"ev": "cret", "r": "got", "n": n, "ok": ok}));
                         }
+                        Some(Err(e)) if e.kind() == std::io::ErrorKind::Interrupted => push2(json!({"ev": "cret", "r": "intr"})),
                         Some(Err(e)) => {
                             push2(json!({"ev": "cret", "r": "err", "kind": kind_name(e.kind())}));
                             eofs = 99;
